@@ -71,8 +71,25 @@ func refPatternEscape(s string) string {
 	return b.String()
 }
 
-func c15(n int, ascii bool) {
-	s := freeRunes(n, ascii)
+func c15(n int, ascii bool) { c15s(freeRunes(n, ascii), false) }
+
+// C15_Path*: s over {a b \ / * .}: escaped separators and escaped
+// backslashes in front of separators, in a directory where the paths spelled
+// by s without its backslashes exist (a/b, a/a, b, "a\" as a directory).
+func c15path(n int) {
+	s := make([]rune, n)
+	for i := range s {
+		s[i] = nd.RuneIn("ab\\/*.")
+	}
+	c15s(s, true)
+}
+
+func C15_Path3() { c15path(3) }
+func C15_Path4() { c15path(4) }
+func C15_Path5() { c15path(5) }
+
+func c15s(s []rune, tree bool) {
+	n := len(s)
 	style := nd.Choice(4)
 	q, ok := quoteSrc(style, s)
 	if !ok {
@@ -114,6 +131,14 @@ func c15(n int, ascii bool) {
 	fs := &fsmodel.FS{Root: &fsmodel.Node{Kind: fsmodel.Dir}}
 	fs.Cwd = fs.Root
 	fs.Root.Children = []*fsmodel.Node{{Name: "zz", Kind: fsmodel.File}, {Name: "a", Kind: fsmodel.File}, {Name: "d", Kind: fsmodel.Dir}}
+	if tree {
+		fs.Root.Children = []*fsmodel.Node{
+			{Name: "a", Kind: fsmodel.Dir, Children: []*fsmodel.Node{{Name: "b", Kind: fsmodel.File}, {Name: "a", Kind: fsmodel.Dir}, {Name: "\\b", Kind: fsmodel.File}}},
+			{Name: "b", Kind: fsmodel.File},
+			{Name: "a\\", Kind: fsmodel.Dir, Children: []*fsmodel.Node{{Name: "b", Kind: fsmodel.File}}},
+			{Name: "ab", Kind: fsmodel.File},
+		}
+	}
 	nd.SetFS(fs)
 
 	mode := []interp.ExpMode{0, interp.Arith, interp.Assign, interp.Literal, interp.Pattern, interp.Quote}[nd.Choice(6)]
